@@ -6,10 +6,11 @@
    1320  DFXPWriter with inline positioning: the layout each div / p / span carries inline (dfxp_choice over the
          transformed set)
    1321  the TEXT of the cue settings WebVTTWriter._convert_positioning returns (model/VttText.v)
+   1322  the margins SAMIWriter prints (model/Pos13Doc.v): set-level block, then one block per language
    1820  to_xml_attribute of Point / Stretch / Padding and from_xml_attribute of the result *)
 From Coq Require Import List ZArith QArith Bool.
 From PV Require Import lib.Sx lib.Str lib.Result.
-From PV Require Import model.Geometry model.Positioning model.DfxpTree model.DfxpClean model.TimeRead model.VttSettings model.DfxpAlign model.VttText spec.SpecGeom spec.SpecPos spec.SpecPos7.
+From PV Require Import model.Geometry model.Positioning model.DfxpTree model.DfxpClean model.TimeRead model.VttSettings model.DfxpAlign model.VttText model.Pos13Doc spec.SpecGeom spec.SpecPos spec.SpecPos7.
 From PV Require Import extract.OrCommon extract.OrGeom extract.OrPos.
 Import ListNotations.
 Open Scope Z_scope.
@@ -61,6 +62,11 @@ Definition req7 (code : Z) (arg : sx) : sx :=
   | 1321, SL [c; l] =>
       match sx_cfg c, sx_opt sx_layout l with
       | Some c, Some l => of_result (fun o => SS (vtt_settings_text o)) (vtt_convert_positioning c l) | _, _ => bad end
+  | 1322, SL [c; s] =>
+      match sx_cfg c, sx_nset s with
+      | Some c, Some s =>
+          of_result (fun s' => of_list (of_list (fun kt => SL [SS (fst kt); SS (snd kt)])) (sami_doc_margins s')) (sami_transform c s)
+      | _, _ => bad end
   | 1820, SL [SI k; v] =>
       match k with
       | 0 => match sx_point v with
@@ -75,6 +81,6 @@ Definition req7 (code : Z) (arg : sx) : sx :=
 
 Definition dispatch (code : Z) (arg : sx) : option sx :=
   match code with
-  | 1211 | 1213 | 1214 | 1215 | 1320 | 1321 | 1820 => Some (req7 code arg)
+  | 1211 | 1213 | 1214 | 1215 | 1320 | 1321 | 1322 | 1820 => Some (req7 code arg)
   | _ => None
   end.
